@@ -122,7 +122,16 @@ pub fn check_delivered_equals_source(sc: &Scenario, tr: &Trace, put: usize) -> R
             }
         }
     }
-    if claimed {
+    // the statement speaks about the moment of the report. The end-of-run comparison is only sound while the
+    // reporting transaction is the only one that ever used this id at the receiver: replayed PDUs arriving after
+    // its end make the daemon start a NEW receive transaction (C11's subject), which may legitimately rewrite the
+    // destination name as its own, incomplete, delivery.
+    let instances = tr
+        .inds_of(p.to, id)
+        .iter()
+        .filter(|r| matches!(&r.ind, cfdp_core::daemon::Indication::Report(rep) if rep.state == cfdp_core::transaction::TransactionState::Active))
+        .count();
+    if claimed && instances <= 1 {
         // and it must still be so at the end of the run
         match tr.file_at(p.to, &p.dst_name) {
             Some(c) if c == src => {}
